@@ -637,3 +637,215 @@ def headers(rnd, lengths=None, types=None):
             b.adv(10)
             out.append(b.tag("hdr").build())
     return out
+
+
+def open_bodies(rnd, remoteAS, localID, limit=None):
+    """C02: OPEN bodies from a field/TLV/perturbation builder.  Yields (name, body)."""
+    as2_right = remoteAS if remoteAS <= 65535 else 23456
+    versions = [4, 0, 3, 5, 255]
+    as2s = [as2_right, 23456, 0, 64999]
+    holds = [90, 0, 1, 2, 3, 65535]
+    ids = [ip4("10.0.0.2"), localID, 0, ip4("224.0.0.1"), ip4("239.255.255.255"), ip4("255.255.255.255"),
+           ip4("223.255.255.255"), ip4("240.0.0.1")]
+    good4 = cap4(remoteAS)
+    caplists = [
+        [good4], [], [cap(1, [0, 1, 0, 1]), good4], [good4, cap(2, []), cap(64, [0] * 6), cap(69, [0, 1, 1, 3])],
+        [cap4(remoteAS ^ 1)], [cap(65, [0, 0, 1])], [cap(65, [])], [cap(65, [0, 0, 0, 1, 2])],
+        [cap(1, [0, 1, 0, 1])], [good4, good4], [good4, cap4(remoteAS ^ 1)], [cap4(remoteAS ^ 1), good4],
+        [cap(0, []), cap(255, [1] * 253 if False else [1] * 40), good4], [cap(128, [7]), good4, cap(2, [])],
+    ]
+    cases = []
+    # one field off at a time
+    for v in versions:
+        cases.append(("ver%d" % v, open_body(remoteAS, 90, ids[0], version=v)))
+    for a in as2s:
+        cases.append(("as2-%d" % a, open_body(remoteAS, 90, ids[0], as2=a)))
+    for h in holds:
+        cases.append(("hold%d" % h, open_body(remoteAS, h, ids[0])))
+    for i in ids:
+        cases.append(("id%x" % i, open_body(remoteAS, 90, i)))
+    for k, cl in enumerate(caplists):
+        cases.append(("caps%d" % k, open_body(remoteAS, 90, ids[0], caps=cl)))
+    # parameter layouts
+    g = [b for b in good4]
+    plist = {
+        "noparams": [], "two-cap-params": [2, 6] + g + [2, 2, 2, 0], "cap-split": [2, 2, 2, 0, 2, 6] + g,
+        "unknown-param": [1, 0, 2, 6] + g, "unknown-after": [2, 6] + g + [3, 1, 9], "param255": [255, 0, 2, 6] + g,
+        "empty-cap-param": [2, 0], "empty-cap-param-then-good": [2, 0, 2, 6] + g,
+        "param-trunc-hdr": [2, 6] + g + [2], "param-overrun": [2, 7] + g, "cap-overrun": [2, 6, 65, 5, 0, 0, 0, 1],
+        "cap-hdr-trunc": [2, 7] + g + [1], "only-unknown": [0, 0],
+    }
+    for n, pl in plist.items():
+        cases.append(("pl-" + n, open_body(remoteAS, 90, ids[0], params=pl)))
+    # perturbations of a good body: optlen, truncation at every offset, trailing garbage
+    good = open_body(remoteAS, 90, ids[0], caps=[cap(1, [0, 1, 0, 1]), good4])
+    for dlt in (-1, 1, -9, 255):
+        bb = list(good)
+        bb[9] = (bb[9] + dlt) & 0xFF if dlt != 255 else 255
+        cases.append(("optlen%+d" % dlt, bb))
+    for cut in range(0, len(good)):
+        cases.append(("trunc%d" % cut, good[:cut]))
+    cases.append(("trail1", good + [0]))
+    cases.append(("trail2", good + [2, 0]))
+    # several faults at once
+    cases.append(("multi-ver-hold", open_body(remoteAS, 1, ids[0], version=3)))
+    cases.append(("multi-as-id", open_body(remoteAS, 90, ip4("224.0.0.1"), as2=64999)))
+    cases.append(("multi-hold-nocap", open_body(remoteAS, 2, ids[0], caps=[cap(1, [0, 1, 0, 1])])))
+    cases.append(("astrans-nocap", open_body(remoteAS, 90, ids[0], as2=23456, caps=[cap(1, [0, 1, 0, 1])])))
+    cases.append(("astrans-goodcap", open_body(remoteAS, 90, ids[0], as2=23456)))
+    if limit:
+        rnd.shuffle(cases)
+        cases = cases[:limit]
+    return cases
+
+
+def open_cases(rnd, limit_per_cfg=None, random_bodies=0):
+    """C02 end-to-end: OPEN body x configuration x direction."""
+    out = []
+    cfgs = [("as2", 65001, 65002, "10.0.0.1"), ("same-as", 65002, 65002, "10.0.0.1"),
+            ("as4", 65001, 4200000002, "10.0.0.1"), ("as4-same", 4200000002, 4200000002, "10.0.0.9"),
+            ("astrans-real", 65001, 23456, "10.0.0.1")]
+    for cn, las, ras, lid in cfgs:
+        cases = open_bodies(rnd, ras, ip4(lid), limit_per_cfg)
+        for i in range(random_bodies):
+            n = rnd.choice([0, 1, 9, 10, 11, 12, 16, 29, 40, 300, 4077])
+            body = [rnd.choice([0, 1, 2, 4, 6, 65, 255, rnd.randrange(256)]) for _ in range(n)]
+            if n >= 10 and rnd.random() < 0.7:
+                body[9] = (n - 10) & 0xFF
+                body[0] = 4
+            cases.append(("rnd%d" % i, body))
+        for name, body in cases:
+            for d in DIRS:
+                if d == "in" and rnd.random() < 0.5 and limit_per_cfg:
+                    continue
+                veto = rnd.random() < 0.08
+                p = peer(localAS=las, remoteAS=ras,
+                         openReply={"code": 2, "sub": 7, "data": [9, 9]} if veto else None)
+                b = Sb("open-%s-%s-%s%s" % (cn, name, d, "-veto" if veto else ""), [p], routerID=lid)
+                b.start()
+                c = b.to_state("openSent", direction=d)
+                b.send(c, frame(1, body))
+                b.ka(c).upd(c).adv(1)
+                out.append(b.tag("open").build())
+    return out
+
+
+def open_encode(rnd, n=40):
+    """C14: the OPEN corebgp sends, for configurations and plugin capability lists."""
+    out = []
+    lases = [1, 65535, 65536, 23456, 4294967295, 64512]
+    holds = [0, 3, 90, 65535]
+    rids = ["0.0.0.1", "10.0.0.1", "255.255.255.254"]
+    vlens = [0, 1, 4, 100, 252, 253, 254, 255, 256, 300]
+    codes = [0, 1, 2, 64, 65, 69, 255]
+    k = 0
+    lists = [[], [(1, [0, 1, 0, 1])], [(65, [0, 0, 0, 9])], [(1, [0, 1, 0, 1]), (65, [1, 2, 3, 4]), (2, [])],
+             [(65, [])], [(64, [0] * 245)], [(64, [0] * 246)], [(64, [0] * 255)], [(64, [0] * 256)], [(64, [0] * 300)],
+             [(2, [])] * 40, [(1, [0, 1, 0, 1])] * 41, [(1, [0, 1, 0, 1])] * 42, [(64, [1] * 120), (64, [2] * 121)],
+             [(64, [1] * 120), (64, [2] * 122)], [(65, [0] * 300), (1, [0, 1, 0, 1])]]
+    for _ in range(n):
+        cl = []
+        for _ in range(rnd.choice([0, 1, 2, 3, 5, 10, 40])):
+            cl.append((rnd.choice(codes), [rnd.randrange(256)] * rnd.choice(vlens[:4] if rnd.random() < 0.8 else vlens)))
+        lists.append(cl)
+    for cl in lists:
+        las = rnd.choice(lases)
+        h = rnd.choice(holds)
+        rid = rnd.choice(rids)
+        for d in DIRS:
+            k += 1
+            b = Sb("enc-%d-%s" % (k, d), [peer(localAS=las, hold=h, caps=cl)], routerID=rid)
+            b.start()
+            c = b.dial_ok() if d == "out" else b.connect()
+            b.adv(6)
+            out.append(b.tag("enc").build())
+    return out
+
+
+def admission():
+    """C13: only connections from configured peers to the configured address."""
+    out = []
+    A = dict(name="pa", remote="10.0.0.2")
+    Bp = dict(name="pb", remote="10.0.0.3", remoteAS=65003, localAddr="10.0.0.1")
+    V6 = dict(name="p6", remote="2001:db8::2", remoteAS=65006, localAddr="2001:db8::1")
+    srcs = {"A": "10.0.0.2:1000", "B": "10.0.0.3:1000", "stranger": "10.0.0.66:1000",
+            "v6": "[2001:db8::2]:1000", "v6stranger": "[2001:db8::66]:1000", "mapped": "[::ffff:10.0.0.2]:1000"}
+    dsts = {"cfg": "10.0.0.1:179", "other": "10.0.0.77:179", "v6cfg": "[2001:db8::1]:179", "v6other": "[2001:db8::7]:179"}
+    for passive in (False, True):
+        for sn, src in srcs.items():
+            for dn, dst in dsts.items():
+                ps = [peer(passive=passive, **A), peer(passive=passive, **Bp), peer(passive=passive, **V6)]
+                b = Sb("adm-%s-%s-%s" % ("pas" if passive else "act", sn, dn), ps)
+                b.start()
+                # an existing session with pa must be unaffected
+                c0 = b.establish("pa", "in")
+                c = b.newconn()
+                b.add("connect", conn=c, src=src, dst=dst)
+                b.upd(c0).adv(1)
+                out.append(b.tag("adm").build())
+    # peer state at arrival
+    states = ["fresh", "out-connect", "out-openSent", "out-openConfirm", "out-established", "in-progress",
+              "in-established", "helddown", "deleted"]
+    for st in states:
+        for withlocal in (False, True):
+            p = peer(localAddr="10.0.0.1" if withlocal else "")
+            b = Sb("adm-state-%s-%s" % (st, "la" if withlocal else "nola"), [p])
+            b.start()
+            if st == "out-connect":
+                pass
+            elif st.startswith("out-"):
+                c0 = b.to_state(st[4:])
+            elif st == "in-progress":
+                c0 = b.connect()
+            elif st == "in-established":
+                c0 = b.establish(direction="in")
+            elif st == "helddown":
+                c0 = b.establish(direction="in")
+                b.notif(c0, 2, 2)
+            elif st == "deleted":
+                b.delete()
+            c = b.connect()
+            b.open(c).ka(c).adv(1)
+            cw = b.newconn()
+            b.add("connect", conn=cw, src="10.0.0.2:5", dst="10.0.0.99:179")
+            b.adv(1)
+            out.append(b.tag("adm", "state").build())
+    return out
+
+
+def registry(rnd, nseq=60):
+    """C20 (life-cycle half): registry operations before / during / after Serve."""
+    out = []
+    ps = [peer("pa", "10.0.0.2"), peer("pb", "10.0.0.3", remoteAS=65003, passive=True)]
+    ops = ["add-pa", "add-pb", "del-pa", "del-pb", "get-pa", "get-pb", "list", "serve", "close", "conn-pa", "conn-pb", "adv"]
+    for i in range(nseq):
+        b = Sb("reg-%d" % i, ps)
+        served = closed = False
+        for _ in range(rnd.randint(3, 9)):
+            o = rnd.choice(ops)
+            if o == "serve":
+                if served:
+                    if not closed:
+                        continue
+                served = True
+                b.add("serve")
+            elif o == "close":
+                b.close()
+                closed = True
+            elif o.startswith("add-"):
+                b.add("addPeer", peer=o[4:])
+            elif o.startswith("del-"):
+                b.delete(o[4:])
+            elif o.startswith("get-"):
+                b.add("getPeer", peer=o[4:])
+            elif o == "list":
+                b.add("listPeers")
+            elif o.startswith("conn-"):
+                if served and not closed:
+                    c = b.connect(o[5:])
+                    b.open(c, o[5:]).ka(c)
+            else:
+                b.adv(rnd.choice([1, 5, 6]))
+        b.add("listPeers")
+        out.append(b.tag("reg").build())
+    return out
